@@ -565,6 +565,11 @@ def partial_cases(rng):
     need = upto_chunks(K)
     yield ('splitWhere', '$data.splitWhere(tick(1, $ >= %d))%s' % (thr, sink), data,
            {1: (min(need, n), min(upto_chunks(K + 1) + 1, n))})
+    yield ('sliceWhere-whole', '$data.sliceWhere(tick(1, $ >= %d)).toList()' % thr, data, {1: (n, n)})
+    yield ('splitWhere-whole', '$data.splitWhere(tick(1, $ >= %d)).toList()' % thr, data, {1: (n, n)})
+    yield ('distinct-key-whole', '$data.distinct(tick(1, $ mod 3)).toList()', data, {1: (n, n)})
+    yield ('toDict-whole', '$data.toDict(tick(1, $), tick(2, $ + 1)).len()', data, {1: (n, n), 2: (n, n)})
+    yield ('takeWhile-whole', '$data.takeWhile(tick(1, true)).toList()', data, {1: (n, n)})
     yield ('selectAllCases-partial', 'selectAllCases(%s)%s' % (', '.join('tick(%d, %s)' % (i + 1, 'true' if f else 'false')
                                                                         for i, f in enumerate(flags)), sink), data,
            {i + 1: (1 if sum(flags[:i]) < K else 0, 1 if sum(flags[:i]) < K + 1 else 0) for i in range(n)})
